@@ -71,3 +71,12 @@ check("C18",
       "Duration:/Size: lines also compared with an independent Python rendition.",
       "Trusted: Lean kernel; translator (thresholds); glibc %.01f on exact binary quotients; bash arithmetic for ksh; harness.",
       "DESIGN.md#c18")
+
+check("C15",
+      "Lean 4 proof: filter + sorted-permutation uniqueness for ANY correct sort (strcmp order proved a strict total order); differential run of robsd-ls",
+      "Proof: Ls.ls models invocation_read/match_directory/invocation_alloc/walk and robsd-ls main. For any sorting function returning a sorted permutation: "
+      "a path is listed iff it is a non-hidden directory entry other than the keep directory (and, with -B, other than the lock file's first line); plain files, "
+      "symlinks and hidden entries never are; the output is strictly descending with each path once; it does not depend on the sort used; -B removes exactly one "
+      "path; absent/empty/newline-less lock omits nothing. The model and the property itself are compared with robsd-ls on generated roots in all five modes.",
+      "Trusted: Lean kernel; d_type from readdir; qsort returns a sorted permutation; harness.",
+      "DESIGN.md#c15")
